@@ -197,7 +197,7 @@ class LinearizedADMM(Optimizer):
         if x is None:
             x = self.x
 
-        return norm(self.C(self.x) - self.z)
+        return norm(self.C(x) - self.z)
 
     def norm_dual_residual(self) -> float:
         r"""Compute the :math:`\ell_2` norm of the dual residual.
